@@ -388,11 +388,18 @@ class Client:
         self.lat = lat or (lambda: 0.0)
         self.dead = False
         self.ncalls = 0
-        self.fail_next: list[BaseException] = []  # fault injection: raised instead of executing
+        self.nrt = 0  # round trips started so far
+        self.fail_at: set[int] = set()  # fault injection: these round trips fail with a connection error (transient fault)
 
     async def _lat(self, after: bool = False) -> None:
         if self.dead:
             raise ConnectionError("client is dead")
+        if not after:
+            self.nrt += 1
+            if self.nrt in self.fail_at:
+                from redis.exceptions import ConnectionError as RedisConnectionError
+
+                raise RedisConnectionError("injected transient connection error")
         await asyncio.sleep(self.lat())
         if self.dead:
             raise ConnectionError("client is dead")
